@@ -397,3 +397,31 @@ def rule_valence_parity(ck, repo, R):
                        file=m.relpath, line=ve.lineno, func=f'{c.name}._valences_exceptions', construct=str(row))
     ck.ok(R, 'rows', f'{n} rows of p-block exception tables fit the parity rule ({len(PARITY_EXEMPT)} frozen exceptions, {len(PARITY_EXEMPT_ELEMENTS)} exempt element)')
     ck.require(n >= 300, f'{R}: only {n} rows inspected')
+
+
+def rule_tentative_removal_set(ck, repo, R):
+    """C04/C14: implicify_hydrogens tries, for i = all .. 1, to drop the first i explicit hydrogens of an atom: it recomputes the atom's environment WITHOUT those i
+    hydrogens, looks the valence rule up, and on success removes exactly those i. The set left out of the environment and the set removed must be the same object."""
+    ck.rule(R, 'in Standardize.implicify_hydrogens the neighbours excluded from the recomputed environment (`m not in X`) and the hydrogens scheduled for removal '
+               '(`to_remove.update(Y)`) are one and the same per-iteration slice of the atom\'s explicit hydrogens (X is Y is `hs[:i]`)')
+    f = repo.func('chython.algorithms.standardize.molecule:Standardize.implicify_hydrogens')
+    loops = [l for l in ast.walk(f.node) if isinstance(l, ast.For) and isinstance(l.iter, ast.Call) and src(l.iter.func) == 'range']
+    found = 0
+    for l in loops:
+        slices = {a.targets[0].id: a for a in l.body if isinstance(a, ast.Assign) and isinstance(a.targets[0], ast.Name) and isinstance(a.value, ast.Subscript)
+                  and isinstance(a.value.slice, ast.Slice)}
+        if not slices:
+            continue
+        excl = [c for c in ast.walk(l) if isinstance(c, ast.Compare) and len(c.ops) == 1 and isinstance(c.ops[0], ast.NotIn) and isinstance(c.comparators[0], ast.Name)
+                and any(isinstance(p_, ast.For) and 'bonds[' in src(p_.iter) for p_ in ast.walk(l) if c in list(ast.walk(p_)) and p_ is not l)]
+        upd = [c for c in ast.walk(l) if isinstance(c, ast.Call) and isinstance(c.func, ast.Attribute) and c.func.attr in ('update', 'extend') and len(c.args) == 1
+               and isinstance(c.args[0], ast.Name) and 'remove' in src(c.func.value)]
+        if not excl or not upd:
+            continue
+        found += 1
+        x, y = excl[0].comparators[0].id, upd[0].args[0].id
+        ck.decide(x == y and x in slices, R, 'excluded-is-removed', (x, y),
+                  f'implicify_hydrogens: the environment is recomputed without `{x}` but `{y}` is what gets removed (per-iteration slices: {sorted(slices)}): for a partial removal '
+                  f'the valence rule is looked up for a neighbourhood that will not exist, and the hydrogen count written to the heavy atom is wrong',
+                  file=f.file, line=excl[0].lineno, func=f.qualname, construct=src(excl[0]))
+    ck.require(found >= 1, 'implicify_hydrogens: tentative-removal loop not recognised')
